@@ -89,6 +89,8 @@ def run_case(seed, tier, rec, st):
     rng = random.Random(seed)
     fname = rng.choice(["json", "orjson", "yaml", "msgpack", "toml", "orjson", "msgpack", "toml"])
     F = _FORMATS[fname]
+    if rng.random() < 0.05:
+        return discriminated_on_format_mixin(rng, rec, fname, F)
     fam = Family("c04", future_annotations=rng.random() < 0.1)
     try:
         multi = rng.random() < 0.3
@@ -261,3 +263,66 @@ def run_case(seed, tier, rec, st):
                                 "document": common.short(docs.get("codec"), 200)})
     finally:
         fam.dispose()
+
+
+def discriminated_on_format_mixin(rng, rec, fname, F):
+    """variants of a discriminated hierarchy are compiled on first use: through from_<format> they must be compiled
+    with the format's dialect (bytes / dates stay native on the wire), also when the first use is a decode."""
+    import datetime
+    fam = Family("c04d")
+    try:
+        mixin = F["mixin"]
+        mode = rng.choice(["config", "annotated", "annotated-union"])
+        cfg = "    class Config(BaseConfig):\n        discriminator = Discriminator(field='kind', include_subtypes=True)\n" if mode == "config" else ""
+        fam.exec_src(f"@dataclass\nclass R({mixin}):\n    base: int = 0\n{cfg}"
+                     "@dataclass\nclass VA(R):\n    kind = 'a'\n    raw: bytes = b'ab'\n    when: datetime.datetime = datetime.datetime(2020, 1, 2, 3, 4, 5)\n"
+                     "@dataclass\nclass VB(R):\n    kind = 'b'\n    day: datetime.date = datetime.date(2021, 2, 3)\n    blob: bytearray = field(default_factory=lambda: bytearray(b'xy'))\n    t: datetime.time = datetime.time(1, 2, 3)\n")
+        m = fam.module
+        if mode == "config":
+            fam.exec_src(f"@dataclass\nclass H({mixin}):\n    v: R\n    vs: List[R] = field(default_factory=list)\n")
+        elif mode == "annotated":
+            fam.exec_src(f"@dataclass\nclass H({mixin}):\n    v: Annotated[R, Discriminator(field='kind', include_subtypes=True)]\n    vs: List[Annotated[R, Discriminator(field='kind', include_subtypes=True)]] = field(default_factory=list)\n")
+        else:
+            fam.exec_src(f"@dataclass\nclass H({mixin}):\n    v: Annotated[Union[VA, VB], Discriminator(field='kind', include_supertypes=True)]\n    vs: List[Annotated[Union[VA, VB], Discriminator(field='kind', include_supertypes=True)]] = field(default_factory=list)\n")
+        vals = [m.VA(1, b"\x00\xff", datetime.datetime(2022, 3, 4, 5, 6, 7)), m.VB(2, datetime.date(2023, 4, 5), bytearray(b"q"), datetime.time(4, 5, 6))]
+        rng.shuffle(vals)
+        to, frm = F["to"], F["frm"]
+        for v in vals:
+            h = m.H(v, [v])
+            rec.evaluation()
+            facts = {"format": fname, "route": "mixin", "scenario": "discriminated-on-format-mixin", "mode": mode}
+            det = {"format": fname, "mode": mode, "value": common.short(h, 300), "source": "".join(fam.sources[1:])}
+            try:
+                # the document written by hand from the reference tree (tagged), so that the FIRST use of the variant
+                # classes is the decode
+                tree = {"v": tagged(v, F), "vs": [tagged(v, F)]}
+                doc0 = F["dump"](tree)
+                back0 = getattr(m.H, frm)(doc0)
+                back = back0
+            except Exception as ex:
+                rec.violation(f"{fname}:discriminated:exception:{type(ex).__name__}", dict(det, error=f"{type(ex).__name__}: {ex}"[:300]), facts)
+                continue
+            if back == h and type(back.v) is type(v) and back0 == h and type(back0.v) is type(v):
+                rec.count("roundtrip_ok")
+                rec.count("discriminated_on_format_mixin_ok")
+                rec.nontrivial((fname, "discriminated", mode, type(v).__name__))
+            else:
+                rec.violation(f"{fname}:discriminated:roundtrip-mismatch", dict(det, decoded=common.short(back, 300), decoded_from_reference_doc=common.short(back0, 300)), facts)
+    finally:
+        fam.dispose()
+
+
+def tagged(v, F):
+    """reference tree of a variant instance for format F (native types kept where the format declares them)."""
+    import base64
+    out = {"kind": type(v).kind}
+    for f in __import__("dataclasses").fields(v):
+        x = getattr(v, f.name)
+        k = {"bytes": "bytes", "bytearray": "bytearray", "datetime": "datetime", "date": "date", "time": "time"}.get(type(x).__name__)
+        if k is None or k in F["natives"]:
+            out[f.name] = x
+        elif k in ("bytes", "bytearray"):
+            out[f.name] = base64.encodebytes(bytes(x)).decode()
+        else:
+            out[f.name] = x.isoformat()
+    return out
